@@ -1,7 +1,7 @@
 (* C08 — the property theorems, and nothing else. *)
 From stdpp Require Import gmap list.
 From Coq Require Import ZArith Lia.
-From Verif Require Import S1.Model C07.Spec C07.Proofs C08.Model C08.Proofs.
+From Verif Require Import S1.Model C07.Spec C07.Proofs C08.Model C08.Proofs C08.ProofsS.
 Open Scope Z_scope.
 
 (* A crash at ANY point - after any prefix of the durable steps of a store
@@ -79,4 +79,207 @@ Proof.
   split; [do 2 eexists; split; [vm_compute; reflexivity|split; [intros E; apply (f_equal (fun s => length (ents (bf s)))) in E; vm_compute in E; discriminate|vm_compute; reflexivity]]|].
   split; [do 2 eexists; split; [vm_compute; reflexivity|vm_compute; reflexivity]|].
   eexists; vm_compute; reflexivity.
+Qed.
+
+
+(* ======================= START-UP PATHS ======================= *)
+
+(* The very first start on an EMPTY directory (F41).  NewBlockHeaderStore
+   writes the genesis header (file append, then one index transaction); then
+   NewFilterHeaderStore writes the genesis filter header (file append, then
+   the index tip).  [filter = false]: crash inside the first, [true]: inside
+   the second (block store complete).  For EVERY crash point - any prefix of
+   the steps, and inside a file append ANY number of bytes 0 <= b <= entry
+   size - the next start yields exactly the freshly initialised stores, which
+   satisfy the C07 invariant.  No hypothesis on the genesis tokens g, gfh
+   (they need not even be distinct). *)
+Theorem C08_first_start_crash_recovers : forall g gfh filter k torn c,
+  first_start_crash g gfh filter k torn = Some c ->
+  torn_le (if filter then first_steps_f g gfh else first_steps_b g) k torn ->
+  recover g gfh c = init g gfh /\
+  exists s, init g gfh = Some s /\ Inv s {| bl := [g]; fl := [gfh] |}.
+Proof.
+  intros g gfh filter k torn c Hc Ht.
+  destruct (first_start_crash_recovers g gfh filter k torn c Hc Ht) as (H1 & H2 & H3).
+  split; [exact H1|]. exists (init_state g gfh). by split.
+Qed.
+Print Assumptions C08_first_start_crash_recovers.
+
+(* the two phases are consecutive and together are the first start *)
+Theorem C08_first_start_steps_are_the_start : forall g gfh,
+  first_start_crash g gfh false (length (first_steps_b g)) None = first_start_crash g gfh true 0 None /\
+  first_start_crash g gfh true (length (first_steps_f g gfh)) None = init g gfh.
+Proof. intros. split; reflexivity. Qed.
+Print Assumptions C08_first_start_steps_are_the_start.
+
+(* The repaired rule in general: a store whose index never recorded a tip is
+   started over WHATEVER its file holds (any entries, any torn tail shorter
+   than an entry) and whatever else the index holds. *)
+Theorem C08_no_tip_starts_over : forall g gfh c,
+  (btip c = None -> 0 <= junk (bf c) < BSZ ->
+   recover_block g c = Some {| bf := {| ents := [g]; junk := 0 |}; ff := ff c;
+                               idx := <[ g := 0 ]> (idx c); btip := Some g; ftip := ftip c |}) /\
+  (forall asr, ftip c = None -> 0 <= junk (ff c) < FSZ ->
+   recover_filter_assert gfh g asr c =
+     Some {| bf := bf c; ff := {| ents := [gfh]; junk := 0 |}; idx := idx c; btip := btip c; ftip := Some g |}).
+Proof.
+  intros g gfh c. split.
+  - exact (recover_block_no_tip g c).
+  - intros asr. exact (recover_filter_assert_no_tip gfh g asr c).
+Qed.
+Print Assumptions C08_no_tip_starts_over.
+
+(* The filter header state reset (F42).  [s] is ANY store state satisfying the
+   C07 invariant whose two files start with the genesis entries (true of every
+   reachable state, see C08_assert_reset_every_history), (h, v) ANY assertion
+   that triggers the reset in s.  The reset is the durable steps
+   [reset_steps]: index tip := genesis block; filter file removed; genesis
+   filter header appended to the new file; index tip := genesis block.  For
+   EVERY crash point (any prefix; inside the append any 0 <= b <= 32 bytes),
+   reopening the image
+     - with the same assertion yields the reset state;
+     - without an assertion yields the reset state, or s itself when nothing
+       had happened yet (k = 0);
+   and the reset state satisfies the invariant with the filter log [gfh].
+   Hypothesis Hdis: filter-header values never coincide with block hashes. *)
+Theorem C08_assert_reset_crash_recovers : forall g gfh s a h v k torn c,
+  Inv s a -> at_h (bl a) 0 = Some g -> at_h (fl a) 0 = Some gfh ->
+  (forall x y, x ∈ fl a -> y ∈ bl a -> x <> y) ->
+  assertion_resets (ff s) (Some (h, v)) = true ->
+  reset_crash g gfh s k torn = Some c -> torn_le (reset_steps gfh g) k torn ->
+  let r := reset_state g gfh s in
+  recover_assert g gfh (Some (h, v)) c = Some r /\
+  (recover g gfh c = Some r \/ (k = 0%nat /\ c = s /\ recover g gfh c = Some s)) /\
+  Inv r {| bl := bl a; fl := [gfh] |}.
+Proof.
+  intros g gfh s a h v k torn c HI Hg Hgf Hdis Ha Hc Ht r.
+  destruct (reset_crash_recovers g gfh s a HI Hg Hgf Hdis _ k torn c Ha Hc Ht) as [H1 H2].
+  split; [exact H1|]. split; [exact H2|]. exact (reset_inv g gfh s a HI Hg).
+Qed.
+Print Assumptions C08_assert_reset_crash_recovers.
+
+(* ... for every history: any well-formed sequence of operations from the
+   freshly created stores, then a start with an assertion that triggers, and
+   a crash anywhere inside the reset. *)
+Theorem C08_assert_reset_every_history : forall g gfh ops s0 h v k torn c,
+  init g gfh = Some s0 -> wf_ops {| bl := [g]; fl := [gfh] |} ops ->
+  let s := fst (run g gfh s0 ops) in
+  let a := fst (arun {| bl := [g]; fl := [gfh] |} ops) in
+  (forall x y, x ∈ fl a -> y ∈ bl a -> x <> y) ->
+  assertion_resets (ff s) (Some (h, v)) = true ->
+  reset_crash g gfh s k torn = Some c -> torn_le (reset_steps gfh g) k torn ->
+  exists s' a', recover_assert g gfh (Some (h, v)) c = Some (reset_state g gfh s) /\
+    recover g gfh c = Some s' /\ Inv s' a' /\
+    Inv (reset_state g gfh s) {| bl := bl a; fl := [gfh] |} /\
+    ((s' = reset_state g gfh s /\ a' = {| bl := bl a; fl := [gfh] |}) \/ (k = 0%nat /\ s' = s /\ a' = a)).
+Proof.
+  intros g gfh ops s0 h v k torn c Hi Hwf s a Hdis Ha Hc Ht.
+  exact (reset_crash_every_history g gfh ops s0 _ k torn c Hi Hwf Hdis Ha Hc Ht).
+Qed.
+Print Assumptions C08_assert_reset_every_history.
+
+(* The crash points are the prefixes of the reset's own steps: all of them
+   are what NewFilterHeaderStore does when the assertion triggers. *)
+Theorem C08_reset_steps_are_the_reset : forall g gfh s a h v,
+  Inv s a -> at_h (bl a) 0 = Some g -> assertion_resets (ff s) (Some (h, v)) = true ->
+  reset_crash g gfh s (length (reset_steps gfh g)) None = Some (reset_state g gfh s) /\
+  recover_filter_assert gfh g (Some (h, v)) s = Some (reset_state g gfh s).
+Proof. intros g gfh s a h v HI Hg Ha. exact (reset_steps_complete g gfh s a HI _ Ha). Qed.
+Print Assumptions C08_reset_steps_are_the_reset.
+
+(* When the assertion triggers, in the vocabulary of the log. *)
+Theorem C08_assert_trigger_iff : forall s a h v, Inv s a ->
+  assertion_resets (ff s) (Some (h, v)) = true <-> exists x, at_h (fl a) h = Some x /\ x <> v.
+Proof. exact assert_trigger_iff. Qed.
+Print Assumptions C08_assert_trigger_iff.
+
+(* An assertion that does not trigger - the asserted height is not in the
+   (trimmed) file, or the stored value equals the asserted one, or the file
+   is empty so that the constructor writes the genesis entry and returns
+   without looking at the assertion - makes no difference: on EVERY store
+   state (crash images included) the constructor with the assertion is the
+   constructor without it. *)
+Theorem C08_assert_no_reset_is_plain_open : forall g gfh asr s0,
+  let f := reset_if_no_tip FSZ (ftip s0) (trim FSZ (ff s0)) in
+  fsize FSZ f = 0 \/ assertion_resets f asr = false ->
+  recover_filter_assert gfh g asr s0 = recover_filter gfh g s0.
+Proof. intros g gfh asr s0. exact (assert_no_reset_plain gfh g asr s0). Qed.
+Print Assumptions C08_assert_no_reset_is_plain_open.
+
+(* ... and on a state satisfying the invariant it is the identity. *)
+Theorem C08_assert_no_reset_identity : forall g gfh s a h v, Inv s a ->
+  at_h (fl a) h = None \/ at_h (fl a) h = Some v ->
+  recover_assert g gfh (Some (h, v)) s = recover g gfh s /\ recover g gfh s = Some s.
+Proof. exact assert_no_reset_inv. Qed.
+Print Assumptions C08_assert_no_reset_identity.
+
+(* Asserting height 0 (the genesis entry).  The right value changes nothing;
+   a wrong value resets - to a file whose height 0 again holds gfh, i.e. the
+   assertion is STILL wrong.  There is no loop: the constructor calls itself
+   with a nil assertion after a reset, and opening the reset state with the
+   same assertion resets once more to the same state (idempotent), every
+   start. *)
+Theorem C08_assert_height_zero : forall g gfh s a v,
+  Inv s a -> at_h (bl a) 0 = Some g -> at_h (fl a) 0 = Some gfh ->
+  recover_assert g gfh (Some (0, v)) s = Some (if v =? gfh then s else reset_state g gfh s) /\
+  recover_assert g gfh (Some (0, v)) (reset_state g gfh s) = Some (reset_state g gfh s).
+Proof. exact assert_height_zero. Qed.
+Print Assumptions C08_assert_height_zero.
+
+(* Non-vacuity of the start-up theorems: a store with 5 block / 4 filter
+   entries, the assertion (2, 999) triggers (height 2 holds 1000002); every
+   step boundary and three torn lengths of the genesis append recover, with
+   and without the assertion.  First start: the image "genesis header in the
+   block file, empty index" (the F41 state: before the fix recover returned
+   None on it, every later start failed) and a torn filter genesis entry
+   recover to the initial state. *)
+Definition ex2_pre : list op :=
+  [ BWrite [(11, 1); (12, 2); (13, 3); (14, 4)] NoFault;
+    FWrite [(1000001, 11); (1000002, 12); (1000003, 13)] NoFault ].
+Definition ex2_state : option store :=
+  match init 7 1000000 with Some s0 => Some (fst (run 7 1000000 s0 ex2_pre)) | None => None end.
+Definition ex2_reset (k : nat) (torn : option Z) : option (option store * option store) :=
+  match ex2_state with
+  | Some s =>
+    if assertion_resets (ff s) (Some (2, 999)) then
+      match reset_crash 7 1000000 s k torn with
+      | Some c => Some (recover_assert 7 1000000 (Some (2, 999)) c, recover 7 1000000 c)
+      | None => None
+      end
+    else None
+  | None => None
+  end.
+Definition ex_first (filter : bool) (k : nat) (torn : option Z) : option (option store) :=
+  match first_start_crash 7 1000000 filter k torn with
+  | Some c => Some (recover 7 1000000 c)
+  | None => None
+  end.
+Example C08_startup_nonvacuous :
+  (exists s r, ex2_state = Some s /\ r = reset_state 7 1000000 s /\
+     ents (bf s) = [7; 11; 12; 13; 14] /\ ents (ff s) = [1000000; 1000001; 1000002; 1000003] /\
+     ents (bf r) = [7; 11; 12; 13; 14] /\ ents (ff r) = [1000000] /\ r <> s /\
+     ex2_reset 0 None = Some (Some r, Some s) /\
+     ex2_reset 1 None = Some (Some r, Some r) /\
+     ex2_reset 2 None = Some (Some r, Some r) /\
+     ex2_reset 2 (Some 0) = Some (Some r, Some r) /\
+     ex2_reset 2 (Some 17) = Some (Some r, Some r) /\
+     ex2_reset 2 (Some 32) = Some (Some r, Some r) /\
+     ex2_reset 3 None = Some (Some r, Some r) /\
+     ex2_reset 4 None = Some (Some r, Some r)) /\
+  (first_start_crash 7 1000000 false 1 None =
+     Some {| bf := {| ents := [7]; junk := 0 |}; ff := {| ents := []; junk := 0 |};
+             idx := ∅; btip := None; ftip := None |} /\
+   ex_first false 1 None = Some (init 7 1000000) /\
+   ex_first false 0 (Some 80) = Some (init 7 1000000) /\
+   ex_first false 0 (Some 33) = Some (init 7 1000000) /\
+   ex_first true 0 (Some 31) = Some (init 7 1000000) /\
+   ex_first true 1 None = Some (init 7 1000000) /\
+   init 7 1000000 <> None).
+Proof.
+  split.
+  - do 2 eexists. split; [vm_compute; reflexivity|]. split; [reflexivity|].
+    repeat (split; [vm_compute; reflexivity|]).
+    split; [intros E; apply (f_equal (fun s => length (ents (ff s)))) in E; vm_compute in E; discriminate|].
+    repeat (split; [vm_compute; reflexivity|]). vm_compute; reflexivity.
+  - repeat (split; [vm_compute; reflexivity|]). vm_compute. discriminate.
 Qed.
